@@ -779,7 +779,7 @@ Lemma f_first_available n sched : 1 <= n ->
   (exists v rest, chanq s = v :: rest /\ sent s = v :: rest) \/
   (chanq s = [] /\ sent s = [] /\ closed s = true /\ cancelled s = true /\ gpc s = GNone).
 Proof.
-  intros Hn c s. apply first_available; [apply wf_faithful; assumption | apply run_InvC; apply wf_faithful; assumption].
+  intros Hn c s. apply (first_available c); [apply wf_faithful; assumption | apply run_InvC; apply wf_faithful; assumption].
 Qed.
 
 Lemma f_precancelled n pre post_ : 1 <= n ->
@@ -787,7 +787,7 @@ Lemma f_precancelled n pre post_ : 1 <= n ->
   cpc s0 = CEntry -> cancelled s0 = true ->
   let s := run c s0 (LCall :: post_) in
   cpc s = CRet /\ closed s = true /\ sent s = [] /\ chanq s = [] /\ recvd s = [] /\ gpc s = GNone.
-Proof. intros Hn c. apply precancelled. apply wf_faithful; assumption. Qed.
+Proof. intros Hn. exact (precancelled (faithful n) pre post_ (wf_faithful n Hn)). Qed.
 
 Lemma f_at_most_count n sched : 1 <= n ->
   let s := run (faithful n) init sched in
